@@ -109,6 +109,6 @@ def dumpAA (a : C10.AA Float) : String :=
   let rE := (List.range K).flatMap fun k => (List.range K).map fun i => q.getR i k
   let qE := (List.range K).flatMap fun k => (List.range q.n).map fun i => q.Q.get i k
   s!"{head} {K} {lmqrRingHead q.qIdx q.rStart q.rEnd} {tail} {fmtF q.minEig} {fmtF q.maxEig}" ++
-  s!" | {fmtV g} | {fmtV rl} | {fmtV rE} | {fmtV qE}"
+  s!" | {fmtV g} | {fmtV rl} | {fmtV ((List.range K).map (C10.readV a.gamLS))} | {fmtV rE} | {fmtV qE}"
 
 end Alpaqa.DirsDrv
